@@ -334,9 +334,9 @@ var successScope = map[string][]string{
 	"C11": {"vm/embedded/implementation/", "vm/constants/", "consensus/"},
 	"C12": {"vm/vm.go", "vm/plasma.go", "vm/supervisor.go", "pow/", "verifier/", "vm/constants/"},
 	"C13": {"vm/vm.go", "vm/supervisor.go", "verifier/", "chain/nom/", "vm/abi/", "wallet/crypto.go", "common/types/", "common/crypto/"},
-	"C14": {"chain/", "protocol/chain_bridge.go"},
+	"C14": {"chain/", "protocol/chain_bridge.go", "common/db/versioned_db.go", "common/db/memdb.go"},
 	"C15": {"protocol/", "p2p/", "chain/momentum/", "rpc/server/"},
-	"C16": {"protocol/", "chain/momentum_pool.go", "chain/momentum/", "chain/chain.go", "vm/supervisor.go", "vm/momentum_vm.go", "verifier/momentum.go", "consensus/", "wallet/crypto.go"},
+	"C16": {"protocol/", "chain/momentum_pool.go", "chain/account_pool.go", "chain/momentum/", "chain/chain.go", "vm/supervisor.go", "vm/vm.go", "vm/momentum_vm.go", "verifier/account_block.go", "verifier/momentum.go", "consensus/", "wallet/crypto.go"},
 	"C17": {"vm/embedded/", "chain/momentum/", "common/types/"},
 	"C18": {"rpc/", "chain/nom/", "chain/account/mailbox/", "common/bytes.go", "common/types/", "common/hexutil"},
 	"C19": {"wallet/"},
@@ -356,6 +356,7 @@ func runWithCommon(def *propDef, r *Run) {
 		r.AllGuardTable(filePrefix(sc...), "every rejection performed on the reviewed tree is still performed")
 		r.AllEffectTable(filePrefix(sc...), "every call (with its arguments) and every non-local store performed on the reviewed tree is still performed")
 		r.PlainBranchTable(filePrefix(sc...), "no new or altered non-rejecting fork")
+		r.EffectContextTable(filePrefix(sc...), "where an effect stands relative to the conditions and checks around it")
 		r.MustPassEffectTable(filePrefix(sc...), "and what they do: a new accepting path that skips a state change (record saved, balance moved, marker set, cache purged, nested verification) leaves the ledger half-updated")
 	}
 }
@@ -999,4 +1000,164 @@ func commonExplain(id string) string {
 		return ""
 	}
 	return " In addition, over the files this property depends on (" + strings.Join(sc, ", ") + "), generated regression tables frozen from the reviewed tree are re-checked against the current source: every rejecting guard is still performed (helper extraction and tail returns accepted), no new or altered non-rejecting branch condition (logging-only forks ignored), no new success result form, every guard and state-changing effect that stood on every accepting path still does, every call (with canonical arguments) and non-local store is still performed (one level of callee inlining), channel capacities unchanged. These tables are a regression reference (they do not claim the frozen code is right)."
+}
+
+//go:embed tables/effect_context.json
+var effectContextJSON []byte
+
+type ctxRow struct {
+	F      string   `json:"f"`
+	C      string   `json:"c"`      // effect, canonical
+	Ctx    []string `json:"ctx"`    // alternative contexts (each: sorted non-rejecting conditions joined by " & ")
+	Guards []string `json:"guards"` // rejecting guards whose accepting edge every occurrence of the effect is behind
+	File   string   `json:"file"`
+}
+
+// effectContexts: for every table effect of fn, the contexts it executes under and the rejecting
+// guards it is behind.
+func (r *Run) effectContexts(fn *ssa.Function) map[string]*ctxRow {
+	fi := r.P.Info(fn)
+	out := map[string]*ctxRow{}
+	first := map[string]bool{}
+	for _, e := range r.P.Effects(fn) {
+		if !tableEffect(e) {
+			continue
+		}
+		b := e.Instr.Block()
+		var cs []string
+		seen := map[string]bool{}
+		for _, c := range r.blockCtx(fn, b) {
+			if s := c.String(); !seen[s] {
+				seen[s] = true
+				cs = append(cs, s)
+			}
+		}
+		// loop membership: an allocation or call hoisted out of (or pushed into) a loop body is a
+		// different program even when its canonical form is the same (one shared object vs one per element)
+		for _, g := range fi.guards {
+			if !isLoopHeader(g.Block) || g.Block.Succs[0] == g.Block.Succs[1] {
+				continue
+			}
+			for i := 0; i < 2; i++ {
+				if g.Block.Succs[i].Dominates(b) && g.Block.Dominates(g.Block.Succs[i]) && blockReaches(b, g.Block) {
+					s := "in-loop[" + g.Cond.String() + "]"
+					if !seen[s] {
+						seen[s] = true
+						cs = append(cs, s)
+					}
+				}
+			}
+		}
+		sort.Strings(cs)
+		ctx := strings.Join(cs, " & ")
+		row := out[e.Canon]
+		if row == nil {
+			row = &ctxRow{F: r.P.FuncName(fn), C: e.Canon}
+			out[e.Canon] = row
+		}
+		have := false
+		for _, x := range row.Ctx {
+			if x == ctx {
+				have = true
+			}
+		}
+		if !have {
+			row.Ctx = append(row.Ctx, ctx)
+			sort.Strings(row.Ctx)
+		}
+		gs := map[string]bool{}
+		for _, g := range fi.guards {
+			if g.Reject != "" && g.DominatesInContext(b) && g.Block != b {
+				gs[g.Full()] = true
+			}
+		}
+		if !first[e.Canon] {
+			first[e.Canon] = true
+			for g := range gs {
+				row.Guards = append(row.Guards, g)
+			}
+		} else {
+			var keep []string
+			for _, g := range row.Guards {
+				if gs[g] {
+					keep = append(keep, g)
+				}
+			}
+			row.Guards = keep
+		}
+		sort.Strings(row.Guards)
+	}
+	return out
+}
+
+// EffectContextTable: an effect that is still performed is performed under a context it was
+// performed under on the reviewed tree, and behind the rejecting guards it was behind: no statement
+// moved out of (or into) a condition, no effect moved in front of a check.
+func (r *Run) EffectContextTable(keep func(tableRow) bool, why string) int {
+	var rows []ctxRow
+	if err := json.Unmarshal(effectContextJSON, &rows); err != nil {
+		panic("bad embedded table: " + err.Error())
+	}
+	n := 0
+	cache := map[string]map[string]*ctxRow{}
+	for _, row := range rows {
+		if !keep(tableRow{F: row.F, C: row.C, File: row.File}) {
+			continue
+		}
+		fn := r.P.Fn(row.F)
+		if fn == nil || fn.Blocks == nil {
+			continue
+		}
+		if cache[row.F] == nil {
+			cache[row.F] = r.effectContexts(fn)
+		}
+		cur := cache[row.F][row.C]
+		if cur == nil {
+			continue // no longer performed here: the effect tables' business
+		}
+		n++
+		file, line := r.P.FnPos(fn)
+		for _, e := range r.P.Effects(fn) {
+			if e.Canon == row.C {
+				file, line = e.File, e.Line
+				break
+			}
+		}
+		bad := ""
+		frozen := map[string]bool{}
+		for _, c := range row.Ctx {
+			frozen[c] = true
+		}
+		for _, c := range cur.Ctx {
+			if !frozen[c] {
+				bad = fmt.Sprintf("`%s` now executes under `%s`; on the reviewed tree it executed under: `%s`", row.C, c, strings.Join(row.Ctx, "` or `"))
+			}
+		}
+		if bad == "" {
+			have := map[string]bool{}
+			for _, g := range cur.Guards {
+				have[g] = true
+			}
+			present := map[string]bool{}
+			for _, g := range r.P.Info(fn).guards {
+				if g.Reject != "" {
+					present[g.Full()] = true
+				}
+			}
+			for _, g := range row.Guards {
+				if present[g] && !have[g] {
+					bad = fmt.Sprintf("`%s` can now be reached without passing the guard `reject-if %s`, which stood in front of it on the reviewed tree", row.C, g)
+				}
+			}
+		}
+		if bad != "" {
+			r.viol("K2-effect-context", row.F, row.C+" context", row.F+": "+bad, why, file, line)
+			continue
+		}
+		r.pass("K2-effect-context", row.F, row.C+" context", "", why, file, line)
+	}
+	if n == 0 {
+		r.viol("vacuous-rule", "", "effect context table", "no table row matched", why, "", 0)
+	}
+	return n
 }
